@@ -354,7 +354,14 @@ def nonzero(a):
     if a.o.ndim != 1:
         if a.is_concrete():
             return tuple(snp.asarray(x) for x in rnp.nonzero(rnp.asarray(a)))
-        raise HarnessError("nonzero of a symbolic n-d array")
+        # symbolic n-d mask: decide every element on this path (a fork per undecided element); the index arrays
+        # are then concrete, as NumPy returns them (row-major order)
+        a._need_fixed()
+        dec = rnp.zeros(a.o.shape, dtype=bool)
+        for pos in rnp.ndindex(*a.o.shape):
+            x = a.o[pos]
+            dec[pos] = bool(mkbool(bt(x))) if is_sym(x) else (bool(x) or (isinstance(x, float) and x != x))
+        return tuple(snp.asarray(x) for x in rnp.nonzero(dec))
     cap = a.o.shape[0]
     cnt = [0]
     sel = []
